@@ -1623,4 +1623,190 @@ def followed2 : Cell → List Nat
 def wellFormed2 (w : World) : Bool :=
   wellFormed w && (w.all fun c => (followed2 c).all fun p => p < w.length)
 
+/-! ### the scope walker: when does `clone` succeed / raise? (deepening round 3)
+
+`wGraph` walks the SOURCE heap in the cloner's traversal order with a four-list abstract state
+instead of a heap: which values are bound in the value map, which node outputs are still pending,
+which bound values have a clone that a finished graph owns, which have a clone produced by a node.
+It answers `ok` (the graph is well-formed, def-before-use sorted and well-scoped: `clone` returns),
+`err e` (`clone` ends with exactly that error: the "clear errors" of the cloner and of the
+`Graph(...)` constructor it calls, `unsupported` for what the model does not cover) or `irregular`
+(no claim: a dangling pointer, a node output that is already bound, initializer names that are not
+pairwise different).  Theorems `C13_clone_succeeds` / `C13_clone_raises_iff`. -/
+
+structure Sc where
+  bound : List Nat := []
+  pend : List Nat := []
+  owned : List Nat := []
+  produced : List Nat := []
+  deriving DecidableEq, Repr
+
+inductive WRes (α : Type) where
+  | ok (a : α)
+  | err (e : Err)
+  | irregular (why : String)
+  deriving Repr
+
+def WRes.bind {α β : Type} (x : WRes α) (f : α → WRes β) : WRes β :=
+  match x with
+  | .ok a => f a
+  | .err e => .err e
+  | .irregular why => .irregular why
+
+instance : Monad WRes where
+  pure := WRes.ok
+  bind := WRes.bind
+
+def wFold {α : Type} (f : α → Sc → WRes Sc) : List α → Sc → WRes Sc
+  | [], A => .ok A
+  | a :: as, A => (f a A).bind (wFold f as)
+
+def wAll {α : Type} (f : α → WRes Unit) : List α → WRes Unit
+  | [] => .ok ()
+  | a :: as => (f a).bind fun _ => wAll f as
+
+def wCell (w : World) (i : Nat) : WRes Cell :=
+  match w[i]? with
+  | some c => .ok c
+  | none => .irregular "dangling pointer"
+
+def wVal (w : World) (i : Nat) : WRes ValueS :=
+  (wCell w i).bind fun c => match c with
+    | .val v => .ok v
+    | _ => .err (.unsupported "not a value")
+def wNodeCell (w : World) (i : Nat) : WRes NodeS :=
+  (wCell w i).bind fun c => match c with
+    | .node v => .ok v
+    | _ => .err (.unsupported "not a node")
+def wGraphCell (w : World) (i : Nat) : WRes GraphS :=
+  (wCell w i).bind fun c => match c with
+    | .graph v => .ok v
+    | _ => .err (.unsupported "not a graph")
+def wAttrCell (w : World) (i : Nat) : WRes AttrS :=
+  (wCell w i).bind fun c => match c with
+    | .attr v => .ok v
+    | _ => .err (.unsupported "not an attr")
+def wDict (w : World) (i : Nat) : WRes Unit :=
+  (wCell w i).bind fun c => match c with
+    | .dict _ => .ok ()
+    | _ => .err (.unsupported "not a dict")
+def wShape (w : World) (i : Nat) : WRes Unit :=
+  (wCell w i).bind fun c => match c with
+    | .shape _ => .ok ()
+    | _ => .err (.unsupported "not a shape")
+def wType (w : World) (i : Nat) : WRes Unit :=
+  (wCell w i).bind fun c => match c with
+    | .type _ => .ok ()
+    | _ => .err (.unsupported "not a type")
+def wOptShape (w : World) : Option Nat → WRes Unit
+  | none => .ok ()
+  | some i => wShape w i
+def wOptType (w : World) : Option Nat → WRes Unit
+  | none => .ok ()
+  | some i => wType w i
+
+/-- the copies made for a cloned value: shape, type, `metadata_props`, `meta` -/
+def wCopyVal (w : World) (vs : ValueS) : WRes Unit :=
+  (wOptShape w vs.shape).bind fun _ => (wOptType w vs.type).bind fun _ =>
+    (wDict w vs.props).bind fun _ => wDict w vs.mstore
+
+/-- `_clone_or_get_value` -/
+def wCloneOrGet (w : World) (v : Nat) (A : Sc) : WRes Sc :=
+  if A.bound.contains v then .ok A
+  else (wVal w v).bind fun vs => (wOptShape w vs.shape).bind fun _ => (wOptType w vs.type).bind fun _ =>
+    (wDict w vs.props).bind fun _ => (wDict w vs.mstore).bind fun _ => .ok { A with bound := v :: A.bound }
+
+/-- the node-input loop -/
+def wMapInputs (allow : Bool) (A : Sc) : List (Option Nat) → WRes Unit
+  | [] => .ok ()
+  | none :: rest => wMapInputs allow A rest
+  | some v :: rest =>
+    if A.bound.contains v then wMapInputs allow A rest
+    else if allow then
+      if A.pend.contains v then .err (.raised "value defined by a later node of the graph being cloned")
+      else wMapInputs allow A rest
+    else .err (.raised "outer-scope value")
+
+def wAttr (w : World) (rec : Nat → Sc → WRes Sc) (a : Nat) (A : Sc) : WRes Sc :=
+  (wAttrCell w a).bind fun as => match as.v with
+    | .graph g => rec g A
+    | .graphs gs => wFold rec gs A
+    | _ => .ok A
+
+/-- the clone of one node output -/
+def wOutput (w : World) (o : Nat) (A : Sc) : WRes Sc :=
+  (wVal w o).bind fun os => (wOptShape w os.shape).bind fun _ => (wOptType w os.type).bind fun _ =>
+    (wDict w os.props).bind fun _ => (wDict w os.mstore).bind fun _ =>
+    if A.bound.contains o then .irregular "node output is already bound in the value map"
+    else .ok { A with bound := o :: A.bound, pend := A.pend.filter (· != o) }
+
+/-- `value._add_usage` on the inputs that were passed through: they must be values -/
+def wPassthrough (w : World) (A : Sc) : List (Option Nat) → WRes Unit
+  | [] => .ok ()
+  | none :: rest => wPassthrough w A rest
+  | some v :: rest =>
+    if A.bound.contains v then wPassthrough w A rest
+    else (wVal w v).bind fun _ => wPassthrough w A rest
+
+/-- `clone_node` -/
+def wNode (w : World) (allow : Bool) (rec : Nat → Sc → WRes Sc) (n : Nat) (A : Sc) : WRes Sc :=
+  (wNodeCell w n).bind fun ns => (wMapInputs allow A ns.inputs).bind fun _ =>
+    (wFold (fun (ka : String × Nat) => wAttr w rec ka.2) ns.attrs A).bind fun A1 =>
+    (wDict w ns.props).bind fun _ => (wDict w ns.mstore).bind fun _ =>
+    (wFold (wOutput w) ns.outputs A1).bind fun A2 =>
+    (wPassthrough w A ns.inputs).bind fun _ => .ok { A2 with produced := ns.outputs.reverse ++ A2.produced }
+
+def wAllOutputs (w : World) : List Nat → WRes (List Nat)
+  | [] => .ok []
+  | n :: ns => (wNodeCell w n).bind fun x => (wAllOutputs w ns).bind fun r => .ok (x.outputs ++ r)
+
+def wName (w : World) (v : Nat) : Option String :=
+  match w[v]? with
+  | some (.val vs) => vs.name
+  | _ => none
+
+/-- the constructor `Graph(inputs, outputs, nodes=, initializers=, ...)` on the clones, read off the
+    source: the ownership checks of `GraphInputs` / `GraphOutputs` / `GraphInitializers`, the name
+    authority -/
+def wMkGraph (w : World) (gs : GraphS) (A : Sc) : WRes Sc :=
+  let inits := gs.inits.map (·.2)
+  (wAll (fun v => match wName w v with
+      | none => .err (.raised "initializer without a name")
+      | some _ => .ok ()) inits).bind fun _ =>
+  (if distinct (inits.filterMap (wName w)) then WRes.ok () else WRes.irregular "initializer names not distinct").bind fun _ =>
+  (wDict w gs.props).bind fun _ => (wDict w gs.mstore).bind fun _ =>
+  (wAll (fun v => if A.owned.contains v then .err (.raised "input owned by a different graph")
+      else if A.produced.contains v then .err (.raised "input is produced by a node") else .ok ()) gs.inputs).bind fun _ =>
+  (wAll (fun v => if A.owned.contains v then .err (.raised "value owned by a different graph") else .ok ())
+      gs.outputs).bind fun _ =>
+  (wAll (fun v => if A.owned.contains v then .err (.raised "value owned by a different graph") else .ok ())
+      inits).bind fun _ =>
+  (wAll (fun v => if wName w v = some "" then .err (.raised "initializer with an empty name")
+      else if A.produced.contains v then .err (.raised "initializer produced by a node") else .ok ()) inits).bind fun _ =>
+  (wAll (fun v => if (wName w v).isNone then .err (.unsupported "unnamed value (name authority)") else .ok ())
+      gs.inputs).bind fun _ =>
+  (wAll (fun n => (wNodeCell w n).bind fun ns =>
+      wAll (fun o => if (wName w o).isNone then .err (.unsupported "unnamed value (name authority)") else .ok ())
+        ns.outputs) gs.nodes).bind fun _ =>
+  .ok { A with owned := A.owned ++ gs.inputs ++ gs.outputs ++ inits }
+
+/-- `_clone_graph` -/
+def wGraphStep (w : World) (allow : Bool) (rec : Nat → Sc → WRes Sc) (g : Nat) (A : Sc) : WRes Sc :=
+  (wGraphCell w g).bind fun gs =>
+  (wFold (wCloneOrGet w) gs.inputs A).bind fun A1 =>
+  (wFold (wCloneOrGet w) (gs.inits.map (·.2)) A1).bind fun A2 =>
+  (wAllOutputs w gs.nodes).bind fun outs =>
+  (wFold (wNode w allow rec) gs.nodes { A2 with pend := A2.pend ++ outs }).bind fun A4 =>
+  (wAll (fun v => if A4.bound.contains v then .ok () else .err (.raised "graph output is not in the value map"))
+      gs.outputs).bind fun _ =>
+  wMkGraph w gs A4
+
+def wGraph (w : World) (allow : Bool) : Nat → Nat → Sc → WRes Sc
+  | 0 => fun _ _ => .err .fuel
+  | f + 1 => fun g A => wGraphStep w allow (wGraph w allow f) g A
+
+/-- the walker's verdict on `graph.clone(allow_outer_scope_values=allow)` -/
+def cloneVerdict (fuel : Nat) (allow : Bool) (w : World) (g : Nat) : WRes Sc :=
+  wGraph w allow fuel g {}
+
 end IrVerif.Clone
